@@ -218,6 +218,10 @@ class World:
     def ev_AddServer(self, s, idx):
         self._add_server(s, idx)
 
+    def ev_SetVu(self, s, vu):
+        # what RebootBucket.add does when the partition (re)assigns a reboot date
+        self.servers[s].valid_until = T0 + vu
+
     def ev_Blacklist(self, a):
         self.cell.apps[a].blacklisted = True
 
